@@ -338,6 +338,11 @@ Definition spec_followed (w : world) : list str :=
   | _ => []
   end.
 
+(* a redirect answer that is handed back to the package has a status other than 200 (only
+   matters when there is such an answer and the client does not follow it) *)
+Definition redirect_status_ok (w : world) : bool :=
+  match w_hops w with [] => true | _ :: _ => w_follow w || negb (w_hop_status w =? 200) end.
+
 Definition spec_result_w (w : world) (ep : endpoint) : expected :=
   match w_ctx w with
   | CtxCancelledBefore | CtxCancelledDuring => XErr COther
